@@ -109,6 +109,15 @@ impl Ctx<'_> {
     /// Report a failed oracle.  If its signature is a listed known finding it is
     /// recorded and `Ok(())` is returned so the caller carries on.
     pub fn fail(&mut self, key: &str, msg: impl FnOnce() -> String) -> R {
+        // survey mode (development aid): log every failure and carry on
+        if let Ok(p) = std::env::var("VERIF_SURVEY") {
+            use std::io::Write;
+            if let Ok(mut f) = std::fs::OpenOptions::new().create(true).append(true).open(p) {
+                let line = format!("{}\t{}\n", key, msg().replace('\n', " "));
+                let _ = f.write_all(line.as_bytes());
+            }
+            return Ok(());
+        }
         if self.known.contains(key) {
             if self.counting {
                 let e = self
